@@ -328,7 +328,12 @@ class ExprParser(RecursiveDescent):
         return shape
 
 def check_expr(expr, trace=False):
-    a = ExprParser(expr, trace=trace).expression()
+    """Parse a complete expression.
+    Text which remains after the expression is an error.
+    """
+    parser = ExprParser(expr, trace=trace)
+    a = parser.expression()
+    parser.mustbe("EOF")
     return a
 
 def check_dimension(dim, attrs, trace=False):
@@ -347,7 +352,9 @@ def check_dimension(dim, attrs, trace=False):
         attrs["dimension"] = AssumedRank()
         attrs["assumed-rank"] = True
     else:
-        attrs["dimension"] = ExprParser(dim, trace=trace).dimension_shape()
+        parser = ExprParser(dim, trace=trace)
+        attrs["dimension"] = parser.dimension_shape()
+        parser.mustbe("EOF")
 
 ######################################################################
 
@@ -748,7 +755,13 @@ class Parser(ExprParser):
                     if parens == 0:
                         self.next()
                         break
-                    parts.append(self.token.value)
+                    value = self.token.value
+                    if (parts and
+                            (parts[-1][-1:].isalnum() or parts[-1][-1:] == "_") and
+                            (value[:1].isalnum() or value[:1] == "_")):
+                        # Keep adjacent words apart: '3 4' is not '34'.
+                        parts.append(" ")
+                    parts.append(value)
                     self.next()
                 attrs[name] = "".join(parts)
             elif self.have("EQUALS"):
